@@ -94,16 +94,30 @@ def check_C16(rep, fl):
             ok = ok and e == ("const", 0, "i64") and all(feval(zero, s) is False for s in sts)
     rep.check(ok, "R16.1", fl, tu, "external_cost", "external_cost = coster.cost(&val) iff cost == 0, else 0", "external_cost is not `if cost == 0 { coster.cost(&val) } else { 0 }`")
     (bkb, bkt), bke, index, conflict = build_key_of(tu)
-    for bi, t in calls_to(tu, fl.item + "::new"):
-        a = [norm(x) for x in tu.call_args(t, expand_vars=True)]
-        okc = lin_key(lin(a[2])) == lin_key({cost: 1, ext: 1})
-        rep.check(okc, "R16.1", fl, tu, "New.cost", "a New item carries cost + external_cost", "New item cost is %s" % show(a[2]), loc=t["sp"])
-        rep.check(a[0] == index and a[1] == conflict, "R18.3", fl, tu, "New(index, conflict)", "the New item carries the (index, conflict) pair of one build_key(key) call",
-                  "New item is keyed (%s, %s)" % (show(a[0]), show(a[1])), loc=t["sp"])
-    for bi, t in calls_to(tu, fl.item + "::update"):
-        a = [norm(x) for x in tu.call_args(t, expand_vars=True)]
-        rep.check(a[0] == index and a[1] == cost and a[2] == ext, "R16.1", fl, tu, "Update(cost, external)", "an Update item carries (index, cost, external_cost)",
-                  "Update item built as (%s, %s, %s)" % (show(a[0]), show(a[1]), show(a[2])), loc=t["sp"])
+    # item constructions in try_update: through Item::new / Item::update or as struct literals
+    items = []
+    for bi, t in tu.calls():
+        if any(callee_matches(tu.callee_of(t), fl.item + "::" + m) for m in ("new", "update", "delete")):
+            cf = ctor_fields(facts, tu.call_expr(t, True))
+            if cf is not None:
+                items.append((cf, t["sp"]))
+    for bi, si, st, e in agg_nodes(tu, fl.item.split("::")[-1]):
+        items.append(((e[2], agg_fields(e)), st["sp"]))
+    n_new = n_upd = 0
+    for (name, f), sp in items:
+        f = {k_: norm(tu.expand(v_)) if v_[0] != "var" else v_ for k_, v_ in f.items()}
+        if name.endswith("Item::New"):
+            n_new += 1
+            okc = lin_key(lin(f.get("cost", ("const", 0, "i64")))) == lin_key({cost: 1, ext: 1})
+            rep.check(okc, "R16.1", fl, tu, "New.cost", "a New item carries cost + external_cost", "New item cost is %s" % show(f.get("cost")), loc=sp)
+            rep.check(f.get("key") == index and f.get("conflict") == conflict, "R18.3", fl, tu, "New(index, conflict)", "the New item carries the (index, conflict) pair of one build_key(key) call",
+                      "New item is keyed (%s, %s)" % (show(f.get("key")), show(f.get("conflict"))), loc=sp)
+        elif name.endswith("Item::Update"):
+            n_upd += 1
+            rep.check(f.get("key") == index and f.get("cost") == cost and f.get("external_cost") == ext, "R16.1", fl, tu, "Update(cost, external)", "an Update item carries (index, cost, external_cost)",
+                      "Update item built as (%s, %s, %s)" % (show(f.get("key")), show(f.get("cost")), show(f.get("external_cost"))), loc=sp)
+    if n_new < 1 or n_upd < 1:
+        rep.missing("R16.1", fl, "try_update: expected a New and an Update item construction, found %d / %d" % (n_new, n_upd))
     su = calls_to(tu, "store::ShardedMap::try_update")
     if su:
         a = [norm(x) for x in tu.call_args(su[0][1])]
@@ -113,7 +127,9 @@ def check_C16(rep, fl):
     for m, variant, mapping in (("new", "New", {"key": "key", "conflict": "conflict", "cost": "cost", "value": "val", "expiration": "exp"}),
                                 ("update", "Update", {"key": "key", "cost": "cost", "external_cost": "external_cost"}),
                                 ("delete", "Delete", {"key": "key", "conflict": "conflict"})):
-        b = facts.body(fl.item + "::" + m)
+        b = facts.body(fl.item + "::" + m, required=False)
+        if b is None:
+            continue  # no constructor function: the items are built as literals and checked where they are built
         e = norm(return_expr(b))
         f = agg_fields(e)
         ok = e[0] == "agg" and e[2].endswith("Item::" + variant) and all(f.get(k) == V(v) for k, v in mapping.items())
@@ -187,7 +203,7 @@ def check_C16(rep, fl):
             e = norm(hi.def_expr(ds[0][0], ds[0][1], True))
             if e[0] == "field" and e[1][0] == "downcast" and e[1][2] == "Some" and is_call(e[1][1], "Iterator::next"):
                 vic = V(name)
-    evs = calls_to(hi, fl.processor + "::on_evict")
+    evs = calls_to(hi, "CacheCallback::on_evict")
     ok = vic is not None and len(evs) == 1
     if ok:
         a = [norm(x) for x in hi.call_args(evs[0][1], expand_vars=False)]
@@ -248,6 +264,39 @@ def check_hit_miss(rep, fl, rule="R17.1"):
                 why = "path [%s] ticks %s" % (show_state(es), cnt)
         rep.check(ok, rule, fl, b, "hit/miss", "every lookup on an open cache ticks exactly one of Hit (store hit) / Miss (store miss) with delta 1; none when closed",
                   "lookup accounting broken: %s" % why)
+
+
+def ordering_of(body, lits, x, y):
+    """['Less'|'Equal'|'Greater'] of x against y as far as the path literals decide it: an
+    `x.cmp(&y)` arm, or the outcomes of `x < y` / `y < x` / `x == y` tests (an `if / else if` chain)."""
+    out = [a[2] for a, v in lits if a[0] == "variant" and v and is_call(a[1], "Ord::cmp")]
+    if out or x is None:
+        return out
+    xs = {norm(x), norm(body.expand(norm(x)))}
+    ys = {norm(y), norm(body.expand(norm(y)))}
+    lt = gt = eq = None
+    for a, v in lits:
+        if a[0] == "bin" and a[1] == "Lt":
+            l_, r_ = norm(body.expand(a[2])), norm(body.expand(a[3]))
+            if l_ in xs and r_ in ys:
+                lt = v
+            elif l_ in ys and r_ in xs:
+                gt = v
+        elif a[0] == "bin" and a[1] == "Eq":
+            l_, r_ = norm(body.expand(a[2])), norm(body.expand(a[3]))
+            if {l_, r_} & xs and {l_, r_} & ys:
+                eq = v
+    if lt is True:
+        return ["Less"]
+    if gt is True:
+        return ["Greater"]
+    if eq is True or (lt is False and gt is False):
+        return ["Equal"]
+    if lt is False and eq is False:
+        return ["Greater"]
+    if gt is False and eq is False:
+        return ["Less"]
+    return []
 
 
 def check_policy_metrics(rep, fl):
@@ -377,15 +426,16 @@ def check_update_metrics(rep, fl):
         # guard: Less => positive form, Greater => negated form
         sts = [expand_state(b, s, hist=True) for s in at.get((bi, term_idx(b, bi)), set())]
         for s in sts:
-            ords = [a[2] for a, v in s.lits if a[0] == "variant" and v and is_call(a[1], "Ord::cmp")]
+            ords = ordering_of(b, s.lits, prev if okd else None, cost)
             if (neg and ords != ["Greater"]) or (not neg and ords != ["Less"]):
                 ok = False
                 why = "CostAdd delta form does not match the comparison outcome (%s)" % ords
+    prev_e = prev if deltas and okd else None
     for s, cnt in outs:
         es = expand_state(b, s, hist=True)
         found = any(a[0] == "variant" and a[2] == "Some" and v for a, v in es.lits)
         isop = any(is_call(a, "Metrics::is_op") and v for a, v in es.lits)
-        ords = [a[2] for a, v in es.lits if a[0] == "variant" and v and is_call(a[1], "Ord::cmp")]
+        ords = ordering_of(b, es.lits, prev_e, cost)
         if not found or not isop:
             good = not cnt
         else:
@@ -562,28 +612,28 @@ def check_metrics_core(rep, fl):
     newb = facts.body("metrics::MetricsInner::new")
     ok = any("METRIC_TYPES_ARRAY" in str(norm(x)) for _, t in calls_to(newb, "iter") for x in newb.call_args(t))
     rep.check(ok, "R17.7", fl, newb, "map from array", "the per-type stripes are allocated from METRIC_TYPES_ARRAY", "MetricsInner::new does not build its map from METRIC_TYPES_ARRAY")
-    clr = facts.body("metrics::MetricsInner::clear")
-    r = None
-    for bi, t in calls_to(clr, "Iterator::for_each"):
-        cl = closure_of_call(clr, t)
-        if cl:
-            r = (bi, t, facts.closure_body(cl[0][1]))
-    ok = r is not None
+    clr = facts.flat(facts.body("metrics::MetricsInner::clear"))
+    its = iterations(clr)
+    outer = [i for i in its if "METRIC_TYPES_ARRAY" in str(i.source) and not any(i.nbi in j.region for j in its if j is not i)]
+    ok = len(outer) == 1
     if ok:
-        bi, t, cb = r
-        recv = norm(clr.call_args(t)[0])
-        ok = is_call(recv, "iter") and "METRIC_TYPES_ARRAY" in str(recv)
-        inner = None
-        for b2, t2 in calls_to(cb, "Iterator::for_each"):
-            cl2 = closure_of_call(cb, t2)
-            if cl2:
-                inner = (b2, t2, facts.closure_body(cl2[0][1]))
-        ok = ok and inner is not None
-        if ok:
-            st = calls_to(inner[2], "store")
-            ok = len(st) == 1 and [norm(x) for x in inner[2].call_args(st[0][1])][:2] == [V(inner[2].local_name.get(2, "arg2")), ("const", 0, "u64")]
-            g = norm(cb.call_args(inner[1])[0])
-            ok = ok and is_call(g, "iter") and any(is_call(c, "BTreeMap::get") and norm(c[2][1]) == V(cb.local_name.get(2, "arg2")) for c in calls_in(norm(cb.expand(g))))
+        outer = outer[0]
+        inner = [i for i in its if i is not outer and i.nbi in outer.region]
+        ok = len(inner) == 1 and is_call(outer.source, "iter") and must_pass_through(clr, [outer.nbi])
+    if ok:
+        inner = inner[0]
+        st = inner.calls_to("store")
+        ok = len(st) == 1 and inner.is_elem(clr.call_args(st[0][1])[0]) and norm(clr.call_args(st[0][1])[1]) == ("const", 0, "u64") and inner.every_round([st[0][0]])
+        # the stripes iterated are those of the metric the outer loop is at: all.get(<outer element>)
+        src = norm(clr.expand(inner.source))
+        gets = [c for c in calls_in(src) if is_call(c, "BTreeMap::get")]
+        if not gets:
+            # the lookup result may be bound by `if let Some(arr)`: follow variables of the source
+            for x in subexprs(inner.source):
+                if x[0] == "var":
+                    for d in var_def_exprs(clr, x, True):
+                        gets += [c for c in calls_in(d) if is_call(c, "BTreeMap::get")]
+        ok = ok and is_call(inner.source, "iter") and any(outer.is_elem(c[2][1]) for c in gets)
     hc = calls_to(clr, "histogram::Histogram::clear")
     ok = ok and len(hc) == 1 and must_pass_through(clr, [hc[0][0]])
     rep.check(ok, "R17.7", fl, clr, "clear zeroes everything", "clear() stores 0 into every stripe of every listed metric and clears the histogram", "MetricsInner::clear does not zero every stripe of every metric and the histogram")
@@ -754,11 +804,14 @@ def check_C15(rep, fl):
     f = None
     for bi, si, st, e in agg_nodes(wh, fl.policy.split("::")[-1]):
         f = agg_fields(e)
-    pn = calls_to(wh, fl.pproc + "::new")
-    ok = f is not None and len(pn) == 1
+    # the worker is built by PolicyProcessor::new(..) or by the struct literal itself
+    procs = [ctor_fields(facts, wh.call_expr(t, True)) for _, t in calls_to(wh, fl.pproc + "::new")]
+    procs += [(e[2], agg_fields(e)) for bi, si, st, e in agg_nodes(wh, fl.pproc.split("::")[-1])]
+    procs = [x for x in procs if x is not None]
+    ok = f is not None and len(procs) == 1
     if ok:
         tx = f.get("items_tx")
-        rx = norm(wh.call_args(pn[0][1])[1])
+        rx = norm(procs[0][1].get("items_rx", ("x",)))
         ok = tx[0] == "field" and rx[0] == "field" and tx[1] == rx[1] and tx[2] == "0" and rx[2] == "1" and (is_call(tx[1], "bounded") or is_call(tx[1], "unbounded"))
     rep.check(ok, "R15.4", fl, wh, "one channel", "items_tx (policy) and items_rx (policy worker) are the two ends of one channel", "items_tx / items_rx are not the two ends of the same channel")
     hb = fl.code(fl.pproc + "::handle_items")
